@@ -4,7 +4,8 @@ import net, gens
 from runner import Script, Cfg
 
 ID = "C05"
-THEOREMS = ["C05_l2l3_services"]
+THEOREMS = ["C05_l2l3_services", "C05_arp_other_silent", "C05_arp_short_silent", "C05_icmp4_other_silent",
+            "C05_icmp6_code_silent", "C05_icmp6_other_type_silent"]
 MONITORS = ["C05"]
 RULE = ("all 65536 ARP operations (thorough; quick: 0..300 and a grid), all 65536 ICMPv4 and ICMPv6 type/code pairs "
         "(thorough; quick: all 256 types with code 0 and 1, all codes for types 8/128/135), payload lengths 0..1472, NS "
